@@ -13,7 +13,8 @@ DRIVER_TARGETS = ['CopVerif.Driver.Lifecycle']
 ALWAYS_SEARCH = True
 RULE = ('tie: for every univariate class (x constructor options: TruncatedGaussian none/min/min+max, GaussianKDE '
         'sample_size none/25 x bw_method) forced discriminating histories [const,A] [A,B] [A,const] [A,B,A] '
-        '[const,const2] plus random histories of 1-4 fits over a pool of 2 constant and 6 non-constant datasets of '
+        '[const,const2], [c,A] for the special constants c = 0.0, -0.0, tiny (denormal..1e-300), huge (1e150..1e300), '
+        '[A,0.0,B], plus random histories of 1-4 fits over a pool of 6 constant and 6 non-constant datasets of '
         'different ranges (normal/uniform/gamma) and sizes (20-80); after every fit the real object is observed '
         '(fitted, to_dict, cdf/ppf on 11+3 probes, whether the four bound methods are the constant overrides, '
         'min/max/_sample_size) and compared with the Lean prediction under each of the 8 variants '
@@ -91,7 +92,19 @@ def pool(rng):
         {'kind': 'normal', 'a': rng.uniform(-3, 30), 'b': rng.uniform(0.5, 4), 'n': sizes[5], 'seed': s()},
         {'kind': 'uniform', 'a': rng.uniform(-4, 5), 'b': rng.uniform(6, 35), 'n': sizes[6], 'seed': s()},
         {'kind': 'normal', 'a': 5.0, 'b': 2.0, 'n': sizes[2], 'seed': s()},   # same size as #2, other values
+        # constants whose VALUE is special: falsy (0.0, -0.0), tiny, huge — a clean-up or a test written as
+        # `if self._constant_value:` / `if constant:` behaves differently exactly there
+        {'kind': 'const', 'a': 0.0, 'n': rng.randint(20, 80), 'seed': 0},
+        {'kind': 'const', 'a': -0.0, 'n': rng.randint(20, 80), 'seed': 0},
+        {'kind': 'const', 'a': rng.choice([5e-324, 1e-300, 2.2250738585072014e-308]), 'n': rng.randint(20, 80), 'seed': 0},
+        {'kind': 'const', 'a': rng.choice([1e150, -1e150, 1e300]), 'n': rng.randint(20, 80), 'seed': 0},
     ]
+
+
+# forced histories over `pool` indices: [const,A] [A,B] [A,const] [A,B,A] [const,const2] ... and every special
+# constant followed by a non-constant dataset (and sandwiched between two)
+FORCED = [[0, 2], [2, 3], [2, 0], [2, 3, 2], [0, 1], [0, 2, 3], [2, 7], [3, 1, 4],
+          [8, 2], [9, 3], [10, 2], [11, 3], [2, 8, 3], [9, 8, 4], [0, 8]]
 
 
 def facts(X):
@@ -287,8 +300,7 @@ def tie_histories(ctx, lean):
         P = pool(rng)
         data = [make_data(d) for d in P]
         fx = [facts(X) for X in data]
-        forced = [[0, 2], [2, 3], [2, 0], [2, 3, 2], [0, 1], [0, 2, 3], [2, 7], [3, 1, 4]]
-        hists = forced + [[rng.randrange(len(P)) for _ in range(rng.randint(1, 4))] for _ in range(n_random)]
+        hists = FORCED + [[rng.randrange(len(P)) for _ in range(rng.randint(1, 4))] for _ in range(n_random)]
         refs = Refs(cls, kw, data)
         ck = (cls.__name__, tuple(sorted((k, repr(v)) for k, v in kw.items())))
         cons = set(VARIANTS)
@@ -301,7 +313,7 @@ def tie_histories(ctx, lean):
             kinds = ''.join('c' if P[i]['kind'] == 'const' else 'n' for i in h)
             ctx.count(f'hist:{cls.__name__}:{kinds}')
             if real is None:
-                ctx.count('hist:skipped-fit-raised')
+                ctx.count('hist:skipped-fit-raised:' + cls.__name__ + ':' + ','.join(str(P[i]['a']) for i in h if P[i]['kind'] == 'const'))
                 continue
             ctx.case((ck, tuple(h), seed0), nontrivial=len(h) >= 2)
             req_tail = f'{cls.__name__} {mn} {mx} {ss} {len(h)} ' + ' '.join(
@@ -378,7 +390,7 @@ def tie_wrapper(ctx, lean):
         P = pool(rng)
         data = [make_data(d) for d in P]
         fx = [facts(X) for X in data]
-        hists = [[0, 2], [2, 3], [2, 0, 3]] + [[rng.randrange(len(P)) for _ in range(rng.randint(1, 4))]
+        hists = [[0, 2], [2, 3], [2, 0, 3], [8, 2], [9, 3], [10, 2], [11, 3], [2, 8, 3]] + [[rng.randrange(len(P)) for _ in range(rng.randint(1, 4))]
                                                for _ in range(2 * ctx.scale)]
         for h in hists:
             seed0 = rng.randrange(1 << 20)
@@ -429,7 +441,10 @@ def tie_query_dispatch(ctx, lean):
     for cname in ('GaussianUnivariate', 'UniformUnivariate', 'GammaUnivariate', 'TruncatedGaussian'):
         cls = getattr(U, cname)
         for state, mk in (('unfitted', lambda: cls()), ('const', lambda: _fitted(cls, C)), ('regular', lambda: _fitted(cls, A)),
-                          ('const-then-regular', lambda: _fitted(cls, C, A))):
+                          ('const-then-regular', lambda: _fitted(cls, C, A)),
+                          ('const0', lambda: _fitted(cls, np.zeros(25))),
+                          ('const0-then-regular', lambda: _fitted(cls, np.zeros(25), A)),
+                          ('const-0-then-regular', lambda: _fitted(cls, np.full(25, -0.0), A))):
             m = mk()
             ov = const_override(m)
             for q, meth in qs.items():
@@ -487,6 +502,7 @@ def refit_oracle(ctx, cls, kw, descs, seed0, report=True):
         m2 = build(cls, kw)
         fit_pinned(m2, last, seed)
     except Exception:  # noqa
+        ctx.count('oracle:skipped-fit-raised:' + cls.__name__)
         return set()
     o1, o2 = observe(m1), observe(m2)
     found = set()
@@ -538,7 +554,8 @@ def oracle_uni(ctx, rng, n_random, forced=True):
     checked = 0
     for cls, kw in uni_configs():
         P = pool(rng)
-        hists = ([[0, 2], [2, 3], [2, 0], [2, 7], [0, 2, 3], [2, 0, 3]] if forced else []) + \
+        hists = ([[0, 2], [2, 3], [2, 0], [2, 7], [0, 2, 3], [2, 0, 3], [8, 2], [9, 3], [10, 2], [11, 3], [2, 8, 3]]
+                 if forced else []) + \
             [[rng.randrange(len(P)) for _ in range(rng.randint(2, 4))] for _ in range(n_random)]
         for h in hists:
             seed0 = rng.randrange(1 << 20)
